@@ -7,6 +7,15 @@ mod c03;
 mod c15;
 mod c20;
 mod c05;
+mod c11;
+mod c12;
+mod c13;
+mod c09;
+mod c18;
+mod c14;
+mod c04;
+mod c06;
+mod c10;
 mod common;
 mod rng;
 mod c07;
@@ -55,6 +64,15 @@ fn main() {
         "C15" => c15::run,
         "C20" => c20::run,
         "C05" => c05::run,
+        "C11" => c11::run,
+        "C12" => c12::run,
+        "C13" => c13::run,
+        "C09" => c09::run,
+        "C18" => c18::run,
+        "C14" => c14::run,
+        "C04" => c04::run,
+        "C06" => c06::run,
+        "C10" => c10::run,
         _ => { eprintln!("unknown property {}", prop); std::process::exit(2); }
     };
     let range: Vec<u64> = match only {
@@ -62,7 +80,11 @@ fn main() {
         None => (0..cases).filter(|c| c % shard.1 == shard.0).collect(),
     };
     for c in range {
-        run(&mut ctx, c);
+        // a panic that escapes a property module must not take the remaining cases with it
+        let r = std::panic::catch_unwind(std::panic::AssertUnwindSafe(|| run(&mut ctx, c)));
+        if r.is_err() {
+            ctx.raw(&format!("harness-panic in case {} => harness-panic", c));
+        }
     }
     ctx.out.flush().unwrap();
 }
